@@ -479,7 +479,11 @@ func join(lt *LitTable, a, b *CNF) *CNF {
 }
 
 // refutes: does the state, together with the negation of every literal in
-// query, propagate to a contradiction? (state ⊨ query[0] ∨ query[1] ∨ …)
+// query, lead to a contradiction? (state ⊨ query[0] ∨ query[1] ∨ …)
+// Decided by unit propagation plus bounded case splitting: the join encoding
+// nests selector clauses ((¬s6 ∨ s1 ∨ s31), (¬s6 ∨ ¬s1), (¬s6 ∨ ¬s31)), which
+// unit propagation alone does not close. Running out of budget answers
+// "not entailed" (the sound direction).
 func (a *CNF) refutes(lt *LitTable, query []int32) bool {
 	if a.bottom {
 		return true
@@ -491,7 +495,51 @@ func (a *CNF) refutes(lt *LitTable, query []int32) bool {
 			return true
 		}
 	}
-	return c.bottom
+	budget := 4000
+	return c.unsat(lt, 0, &budget)
+}
+
+func (a *CNF) unsat(lt *LitTable, depth int, budget *int) bool {
+	if a.bottom {
+		return true
+	}
+	*budget--
+	if *budget <= 0 || depth > 24 {
+		return false
+	}
+	// shortest non-unit clause, selector-only clauses first
+	var best Clause
+	bestScore := 1 << 30
+	for _, c := range a.cl {
+		if len(c) < 2 {
+			continue
+		}
+		score := len(c) * 4
+		for _, x := range c {
+			if l, _ := lt.get(x); l.Kind != KS {
+				score++
+			}
+		}
+		if score < bestScore || (score == bestScore && c.key() < best.key()) {
+			best, bestScore = c, score
+		}
+	}
+	if best == nil {
+		return false // only units left and no contradiction: satisfiable
+	}
+	// every way of satisfying `best` must be contradictory
+	for i, x := range best {
+		b := a.clone()
+		// literals tried before are false in this branch
+		for _, y := range best[:i] {
+			b.addUnit(lt, -y)
+		}
+		b.addUnit(lt, x)
+		if !b.unsat(lt, depth+1, budget) {
+			return false
+		}
+	}
+	return true
 }
 
 func (a *CNF) equal(b *CNF) bool {
